@@ -5,8 +5,10 @@
     SEQ_INIT             nothing left to encode: on LZMA_FINISH write the end marker 0x00; otherwise
                          if (need_state_reset) lzma_lzma_encoder_reset(); uncompressed_size = compressed_size = 0
     SEQ_LZMA_ENCODE      symbols are encoded into buf[] until, AT THE TOP of the loop,
-                           uncompressed bytes of the chunk ≥ LZMA2_UNCOMPRESSED_MAX − MATCH_LEN_MAX            (`limit`)
-                           or *out_pos + rc_pending(rc) ≥ LZMA2_CHUNK_MAX − LOOP_INPUT_MAX                      (size)
+                           uncompressed bytes of the chunk ≥ target − MATCH_LEN_MAX                            (`limit`)
+                           or *out_pos + rc_pending(rc) ≥ compLimit                                            (size)
+                         (`ChunkLimits`: target = LZMA2_UNCOMPRESSED_MAX, compLimit = LZMA2_CHUNK_MAX − LOOP_INPUT_MAX in
+                         xz 5.8.1; both are read from the source on every run, see `Gen/C01.lean`)
                          or the input (up to a flush point / the end) is used up; then rc_flush.
                          if (compressed_size >= uncompressed_size): uncompressed chunk of uncompressed_size + mf->read_ahead
                            bytes (read_ahead = 0 afterwards), need_state_reset = true
@@ -40,6 +42,33 @@ def chunkFull (chunkUncomp : Nat) (rc : Enc) : Bool :=
   chunkUncomp ≥ LZMA2_UNCOMPRESSED_MAX - MATCH_LEN_MAX
     || rc.outTotal + rc.pending ≥ LZMA2_CHUNK_MAX - LOOP_INPUT_MAX
 
+/-- The two encoder-side chunk-closing limits, as the source has them (regenerated into `Gen/C01.lean` on every run):
+    `target`    the constant in `const uint32_t left = <target> - coder->uncompressed_size;` (lzma2_encoder.c) — the format
+                maximum LZMA2_UNCOMPRESSED_MAX in xz 5.8.1, but any encoder-side value up to it is a valid choice;
+    `compLimit` the value of the right-hand side of `*out_pos + rc_pending(&coder->rc) >= …` at the top of the loop of
+                `lzma_lzma_encode` (lzma_encoder.c) — `LZMA2_CHUNK_MAX - LOOP_INPUT_MAX` in xz 5.8.1.
+    Both are tuning knobs: every value with `ChunkLimits.Ok` gives valid LZMA2 (the theorems are for all of them). -/
+structure ChunkLimits where
+  target : Nat
+  compLimit : Nat
+  deriving Repr, DecidableEq, Inhabited
+
+/-- the limits of xz 5.8.1 -/
+def ChunkLimits.std : ChunkLimits := { target := LZMA2_UNCOMPRESSED_MAX, compLimit := LZMA2_CHUNK_MAX - LOOP_INPUT_MAX }
+
+/-- limits for which the chunker always makes progress and stays inside the format's chunk sizes:
+    more than a maximal match and at most LZMA2_UNCOMPRESSED_MAX uncompressed; room for one more symbol (≤ 60 bytes incl.
+    the flush) below LZMA2_CHUNK_MAX compressed. -/
+def ChunkLimits.Ok (lim : ChunkLimits) : Prop :=
+  MATCH_LEN_MAX < lim.target ∧ lim.target ≤ LZMA2_UNCOMPRESSED_MAX ∧ 5 < lim.compLimit ∧ lim.compLimit + 60 ≤ LZMA2_CHUNK_MAX
+
+instance (lim : ChunkLimits) : Decidable lim.Ok := by unfold ChunkLimits.Ok; infer_instance
+
+/-- the chunk-size test at the top of the loop of `lzma_lzma_encode`, for given limits -/
+def chunkFullL (lim : ChunkLimits) (chunkUncomp : Nat) (rc : Enc) : Bool :=
+  chunkUncomp ≥ lim.target - MATCH_LEN_MAX
+    || rc.outTotal + rc.pending ≥ lim.compLimit
+
 /-- `lzma2_header_lzma` -/
 def headerLzma (needProps needStateReset needDictReset : Bool) (usize csize : Nat) (p : Props) : List UInt8 :=
   let control :=
@@ -71,7 +100,67 @@ def L2Enc.new (p : Props) (hasPreset : Bool) : L2Enc :=
 /-- bytes `[from, from+n)` of a ByteArray as a list -/
 def sliceList (buf : ByteArray) (start n : Nat) : List UInt8 := (buf.extract start (start + n)).toList
 
-/-- Encode ONE chunk starting at data offset `off` and trace index `ti`; `segEnd` = trace index where the current input
+/-- Encode ONE chunk (for given chunk-closing limits) starting at data offset `off` and trace index `ti`; `segEnd` = trace index where the current input
+    segment ends (a flush marker or the end of the trace). Returns (bytes of the chunk incl. header, new offset, new trace
+    index, new state, symbols encoded). Precondition: something is left to encode (`off < dataLen` up to the segment end). -/
+def encodeChunkL (lim : ChunkLimits) (dictSize : Nat) (buf : ByteArray) (base : Nat) (trace : Array TraceRec) (segEnd : Nat)
+    (c : L2Enc) (off ti : Nat) : Except String (List UInt8 × Nat × Nat × L2Enc × Nat) := do
+  let p := c.lz.props
+  -- SEQ_INIT
+  let mut e := if c.needStateReset then c.lz.reset p else c.lz
+  let mut o := off
+  let mut i := ti
+  let mut n := 0
+  let mut ra := 0
+  let mut initialized := c.initialized
+  -- encode_init (first call of lzma_lzma_encode)
+  if !initialized then
+    e := e.encode (initOps (buf.get! (base + o)))
+    e := { e with uncompSize := e.uncompSize + 1 }
+    o := o + 1
+    n := 1
+    initialized := true
+  -- the main loop
+  let mut fuel := trace.size + 1
+  while fuel > 0 do
+    fuel := fuel - 1
+    if chunkFullL lim (o - off) e.rc then break
+    if i ≥ segEnd then break
+    let r := trace[i]!
+    if r.kind != 0 then
+      throw s!"trace record {i}: unexpected kind {r.kind} inside a chunk"
+    if r.pos != e.uncompSize % 4294967296 then
+      throw s!"trace record {i}: position {r.pos} but the model's uncomp_size is {e.uncompSize}"
+    let (sym, prev, mb) ← checkSym dictSize buf base o e.st r.back r.len
+    let (ops, st') := symOps p e.st e.uncompSize prev mb sym
+    e := e.encode ops
+    e := { e with st := st', uncompSize := e.uncompSize + r.len }
+    o := o + r.len
+    ra := r.ra
+    i := i + 1
+    n := n + 1
+  -- rc_flush
+  let (payload, csize, e') := e.flush
+  let usize := o - off
+  if csize ≥ usize then
+    -- uncompressed chunk; it also swallows the bytes the match finder had read ahead
+    let usize := usize + ra
+    if base + off + usize > buf.size then
+      throw s!"uncompressed chunk at {off}: read_ahead {ra} runs past the end of the data"
+    if usize > LZMA2_CHUNK_MAX || usize == 0 then
+      throw s!"uncompressed chunk at {off} has size {usize}"
+    let hdr := headerUncompressed c.needDictReset usize
+    return (hdr ++ sliceList buf (base + off) usize, off + usize, i,
+            { c with lz := e', needDictReset := false, needStateReset := true, initialized := initialized }, n)
+  else
+    if csize > LZMA2_CHUNK_MAX || usize > LZMA2_UNCOMPRESSED_MAX || usize == 0 then
+      throw s!"LZMA chunk at {off}: sizes {usize}/{csize} out of range"
+    let hdr := headerLzma c.needProps c.needStateReset c.needDictReset usize csize p
+    return (hdr ++ payload, o, i,
+            { c with lz := e', needProps := false, needStateReset := false, needDictReset := false, initialized := initialized }, n)
+
+/-- `encodeChunkL ChunkLimits.std` written out (kept under its old name: the end-to-end proofs unfold it; equality:
+    `LzmaExec.encodeChunk_std`). Encode ONE chunk starting at data offset `off` and trace index `ti`; `segEnd` = trace index where the current input
     segment ends (a flush marker or the end of the trace). Returns (bytes of the chunk incl. header, new offset, new trace
     index, new state, symbols encoded). Precondition: something is left to encode (`off < dataLen` up to the segment end). -/
 def encodeChunk (dictSize : Nat) (buf : ByteArray) (base : Nat) (trace : Array TraceRec) (segEnd : Nat)
@@ -138,6 +227,45 @@ def nextMarker (trace : Array TraceRec) (i : Nat) : Nat := Id.run do
   return j
 
 /-- `lzma2_encode` for a complete input: chunks until each flush point (a kind-2 record carries the input offset in `pos`)
+    and until the end, then the end marker 0x00. Fails if the trace is not a valid description of the data. -/
+def lzma2EncodeL (lim : ChunkLimits) (p : Props) (dictSize : Nat) (buf : ByteArray) (base : Nat) (trace : Array TraceRec) :
+    Except String EncResult := do
+  let dataLen := buf.size - base
+  let mut c := L2Enc.new p (base > 0)
+  let mut out : Array (List UInt8) := #[]
+  let mut off := 0
+  let mut ti := 0
+  let mut n := 0
+  let mut fuel := dataLen + trace.size + 2
+  while fuel > 0 do
+    fuel := fuel - 1
+    let segEnd := nextMarker trace ti
+    -- input available up to the flush point (or everything)
+    let segLimit := if segEnd < trace.size then trace[segEnd]!.pos else dataLen
+    if off > segLimit then
+      throw s!"offset {off} beyond the flush point {segLimit}"
+    if off == segLimit then
+      -- SEQ_INIT with mf_unencoded == 0
+      if ti != segEnd then
+        throw s!"{segEnd - ti} trace records left at offset {off} where the input segment ends"
+      if segEnd < trace.size then
+        ti := segEnd + 1
+        continue
+      else break
+    let (bytes, off', ti', c', k) ← encodeChunkL lim dictSize buf base trace segEnd c off ti
+    if off' > segLimit then
+      throw s!"chunk at {off} runs to {off'}, beyond the available input {segLimit}"
+    out := out.push bytes
+    off := off'
+    ti := ti'
+    c := c'
+    n := n + k
+  if off != dataLen then
+    throw s!"the symbols cover {off} bytes, the data has {dataLen}"
+  return { out := (out.toList.flatten) ++ [0], consumed := off, nsyms := n }
+
+/-- `lzma2EncodeL ChunkLimits.std` written out (old name; equality: `LzmaExec.lzma2Encode_std`).
+    `lzma2_encode` for a complete input: chunks until each flush point (a kind-2 record carries the input offset in `pos`)
     and until the end, then the end marker 0x00. Fails if the trace is not a valid description of the data. -/
 def lzma2Encode (p : Props) (dictSize : Nat) (buf : ByteArray) (base : Nat) (trace : Array TraceRec) :
     Except String EncResult := do
